@@ -5,3 +5,9 @@ claim("C03", "points-to/write-effect analysis over SSA (Andersen, field-sensitiv
 claim("C06", "points-to/write-effect analysis over SSA (Andersen, field-sensitive, guarded-phi pruning) + alias query on returned states",
       "Decides for all specs, states and messages that no instruction in the closure of Spec.Step/Spec.Walk (core, match; callbacks cut by A2) can write through any argument or to a package-level variable, and that the bindings map of every returned state is never the given state's map. Necessary structural part of 'the engine holds no state'; does not decide equality of repeated runs.",
       "DESIGN.md 4 C06")
+claim("C10", "points-to/escape analysis over SSA from Interpreter.Exec + type scan for runtime storage + write-effect analysis",
+      "Decides for all scripts and schedules that the goja runtime of an execution is created in that activation (no field, global, pool or map can carry one over), that nothing reachable from the caller's bindings and not the props map itself is reachable from any value handed to the runtime, and that Exec writes nothing shared. Necessary structural part of isolation; goja internals are trusted (A3).",
+      "DESIGN.md 4 C10")
+claim("C12", "write-effect analysis (E1) + who-may-write/reachability over resolved call edges + atomic-only field use + deep-copy alias query",
+      "Decides that processing never writes the shared spec or globals, that no spec-writing function is reachable from Step/Walk/SetSpec/Spec, that the swap pointer is only touched atomically, that Step/Walk never re-read the current version, and that Spec.Copy shares no spec structure with the original. Necessary structural part of immutability and atomic swap for all schedules; race-freedom inside goja is not decided.",
+      "DESIGN.md 4 C12")
